@@ -29,6 +29,7 @@ type PropFile struct {
 	NotCovered     []string   `json:"not_covered"`
 	Assumptions    []string   `json:"assumptions"`
 	Lockset        []string   `json:"lockset"`
+	QuickTimeoutS  int        `json:"quick_timeout_s"` // per-obligation budget of the quick tier when 10 s is too tight for a discharged obligation
 	Crash          []string   `json:"crash"`
 }
 
@@ -203,6 +204,9 @@ func cmdCheck(args []string) int {
 		return 2
 	}
 	timeout := 10
+	if pf.QuickTimeoutS > 0 {
+		timeout = pf.QuickTimeoutS
+	}
 	needTwo := false
 	if *tier == "thorough" {
 		timeout = 60
